@@ -2,7 +2,7 @@
 # evaluate the harmless rewrites under seeded/harmless: each is applied to a scratch worktree of /repo, the named checks are run against
 # it (JUMANJI_REPO) and must exit 0 (or, at worst, report a broken obligation as no-failing-input-found, which DESIGN.md then records).
 # usage: tools/harmlesstest.sh "H1-snake-flipped-compare-lambda-cond:C03 C04 C09 C11" ...
-cd /verif
+cd ${VROOT:-/verif}
 for item in "$@"; do
   h=${item%%:*}; pids=${item#*:}
   wt=/tmp/hl_$$_${h%%-*}
